@@ -214,8 +214,6 @@ theorem fields_joinWith (ws : List (List Char)) (h : ∀ w ∈ ws, w ≠ [] ∧ 
       simp
 
 
-namespace ErgoVerif.Cron
-open ErgoVerif.Generated.Cron
 
 /-! ### shapes of printed options -/
 
